@@ -11,10 +11,14 @@ def run(P, R, L):
     K.ord7_smallest_snapshot(P, R, L)
     R.clause("ROLE-1", "version edits produced by flush, compaction and trivial move carry smallest..largest in that order")
     K.role1(P, R, L)
+    R.clause("GRD-10", "closed-interval bound comparisons (is_base_level_for_key, overlap tests, level-0 expansion)")
+    K.grd10_closed_intervals(P, R, L)
     R.clause("ROLE-3", "level roles of version edits: outputs at level+1, inputs of both levels deleted, trivial move level -> level+1")
     K.role3_levels(P, R, L)
     R.clause("PAIR-3", "bounds of every output file are captured from the entries added to it")
     K.pair3(P, R, L)
+    K.err2_iterator_status(P, R, L)
+    R.clause("ERR-2", "an unreadable compaction input is never treated as empty: the iterator status is consulted before installing")
     R.clause("ORD-3", "outputs are installed only without error; inputs are deleted only after installation")
     K.ord3_tables(P, R, L)
     K.ord3_flush(P, R, L)
